@@ -12,8 +12,12 @@ length-prefixed lists of rationals, matrices row-major with `n*n` entries):
   const  t0 tau tend <script>        script item: `0` | `1 a d e fxflag`
          -> <times> | <sols>
   adapt  errorder tolbits sfbits tau0bits tendbits t0bits x0bits fuel <script>   (IEEE-754 bit patterns)
-         script item: `cbits ebits thrbits` (used for the step after that many accepted steps)
+         script item: `cbits ebits thrbits` (used for the step after that many accepted steps);
+         xnew = (x + tau*c) + (Fx*tau)/8, xhat = xnew + e*tau, Fxnew = xnew/2 + tau
          -> <times bits> | <sols bits> | taubits | outOfFuel | <accepted flags>
+  dirkf  s rows <A bits> n <M> <K> <d> <g> <x> taubits fxflag [<Fx>]   (all IEEE bit patterns; F y = −K y − d∘y³ + g)
+         -> ok <xnew> | <xest or -> | <Fxnew or -> | fcalls        (Float instantiation of dirkStep)
+  rosf   s <A> <G> <b> hasbhat [<bhat>] n <M> <K> <d> <g> <x> taubits  -> ok <xnew> | <xest or ->
   rkres  s <A> <w>      -> residual groups of `rkResiduals`
   rosres s <A> <G> <w>  -> residual groups of `rosResiduals`
   allclose <b> <a>      -> 0/1
@@ -21,6 +25,7 @@ length-prefixed lists of rationals, matrices row-major with `n*n` entries):
 import Pyiga.Proto
 import Pyiga.Model.ODE
 import Pyiga.Model.RatVec
+import Pyiga.Model.FloatVec
 
 open Pyiga Pyiga.Proto Pyiga.ODE Pyiga.RatVec
 
@@ -148,8 +153,10 @@ def doConst : P String := do
   | .error _ => pure "err-AssertionError"
   | .ok (ts, xs) => pure s!"{showRats ts} | {showRats (xs.map (·.1))}"
 
-/-- scripted adaptive stepper item: `xnew = x + tau*c`, `xhat = xnew + e*tau`,
-`NoConvergenceError` iff `tau > thr`. -/
+/-- scripted adaptive stepper item: `xnew = (x + tau*c) + (Fx*tau)*0.125` (`Fx` = the value the
+driver passes, `0.5` for `None`), `xhat = xnew + e*tau`, `F_x_new = xnew*0.5 + tau`,
+`NoConvergenceError` iff `tau > thr`.  The dependence on `Fx` makes the threading of `Fx`
+(accepted step: `Fxnew`, rejected step: the old `Fx`) visible in the returned states. -/
 structure ScriptA where
   c : Float
   e : Float
@@ -161,24 +168,24 @@ def showF (x : Float) : String := toString x.toBits.toNat
 def pScriptA : P ScriptA := do
   let c ← fbits; let e ← fbits; let thr ← fbits; pure { c := c, e := e, thr := thr }
 
-instance : Zero Float := ⟨0.0⟩
-
+open Pyiga.FloatVec in
 def doAdapt : P String := do
   let q ← nat
   let tol ← fbits; let sf ← fbits; let tau0 ← fbits; let tend ← fbits; let t0 ← fbits; let x0 ← fbits
   let fuel ← nat
   let script ← list pScriptA
   if q = 0 then failure
-  -- scripted stepper: xnew = x + tau*c, xhat = xnew + e*tau ; the state carries the call index
+  -- the state carries the call index (= number of accepted steps)
   let step : (Float × Nat) → Float → Option (Float × Nat) →
       Except StepErr ((Float × Nat) × (Float × Nat) × Option (Float × Nat)) :=
-    fun (x, idx) tau _ =>
+    fun (x, idx) tau Fx =>
       -- item = number of accepted steps so far; past the end: an exact step (always accepted)
       let it := script.getD idx { c := 1.0, e := 0.0, thr := 1.0 / 0.0 }
+      let fxv : Float := match Fx with | some (v, _) => v | none => 0.5
       if it.thr < tau then .error .noConvergence else
-        let xnew := x + tau * it.c
+        let xnew := (x + tau * it.c) + (fxv * tau) * 0.125
         let xhat := xnew + it.e * tau
-        .ok ((xnew, idx + 1), (xhat, idx + 1), none)
+        .ok ((xnew, idx + 1), (xhat, idx + 1), some (xnew * 0.5 + tau, 0))
   -- `np.linalg.norm((xhat - xnew) / (tol + tol*abs(x))) / np.sqrt(len(x))` for len(x) = 1
   let ratio : (Float × Nat) → (Float × Nat) → (Float × Nat) → Float := fun x xn xh =>
     let d := tol + tol * Float.abs x.1
@@ -195,6 +202,80 @@ def doAdapt : P String := do
       | .newtonFailed => "F")
     pure s!"{showList showF o.times} | {showList (fun (s : Float × Nat) => showF s.1) o.sols} | {showF o.tau} | {if o.outOfFuel then 1 else 0} | {showList id acc}"
 
+/-! ### nonlinear right-hand sides through the `Float` instantiation
+
+`F(y) = −K·y − d∘y∘y∘y + g`, `J(y) = −K − 3·diag(d∘y∘y)`. -/
+
+section floatops
+open Pyiga.FloatVec
+
+def pFList : P (List Float) := list fbits
+def toFMat (n : Nat) (l : List Float) : FMat :=
+  (List.range (l.length / (if n = 0 then 1 else n))).map (fun i => (l.drop (i * n)).take n)
+def showFV (v : FVec) : String := showList showF v.d
+def showOptFV : Option FVec → String
+  | some v => showFV v
+  | none => "-"
+def ffn2 (A : FMat) : Nat → Nat → Float := fun i j => (A.getD i []).getD j 0.0
+def ffn1 (b : List Float) : Nat → Float := fun i => b.getD i 0.0
+
+def nlF (K : FMat) (d g : List Float) (y : FVec) : FVec :=
+  ⟨List.zipWith (fun a b => a + b)
+    (List.zipWith (fun ky t => -ky - t) (matVec K y).d (List.zipWith (fun di yi => di * yi * yi * yi) d y.d)) g⟩
+
+def nlJ (K : FMat) (d : List Float) (y : FVec) : FMat :=
+  K.zipIdx.map (fun (r, i) => r.zipIdx.map (fun (v, j) =>
+    if i = j then -v - 3.0 * (d.getD i 0.0 * y.d.getD i 0.0 * y.d.getD i 0.0) else -v))
+
+/-- `norm(res) < max(atol, rtol*norm(res0))` in doubles -/
+def convF (atol rtol : Float) (res0 res : FVec) : Bool :=
+  decide (norm res < pmax atol (rtol * norm res0))
+
+def allcloseF (b a : List Float) : Bool :=
+  b.length == a.length &&
+    (List.zipWith (fun x y => decide (Float.abs (x - y) ≤ 1e-8 + 1e-5 * Float.abs y)) b a).all id
+
+def doDirkF : P String := do
+  let s ← nat; let rows ← nat
+  let Afl ← pFList
+  let n ← nat
+  let Ml ← pFList; let Kl ← pFList; let d ← pFList; let g ← pFList; let x ← pFList; let tau ← fbits
+  let fxflag ← bool
+  let Fx ← if fxflag then (do let v ← pFList; pure (some (⟨v⟩ : FVec))) else pure none
+  let Afull := toFMat s Afl
+  if Afull.length ≠ rows || (rows ≠ s + 1 && rows ≠ s + 2) || s = 0 then failure
+  let Mm := toFMat n Ml; let K := toFMat n Kl
+  let A := Afull.take s
+  let b := Afull.getD s []
+  let bhat := if rows = s + 2 then some (Afull.getD (s + 1) []) else none
+  let isSA := allcloseF b (A.getD (s - 1) [])
+  let F := nlF K d g
+  let jsolve : Float → FVec → FVec → FVec := fun c z r => solveV (matSub Mm (matScale c (nlJ K d z))) r
+  match dirkStep s (ffn2 A) (ffn1 b) (bhat.map ffn1) isSA (matVec Mm) (solveV Mm) F jsolve
+      (convF 1e-4 1e-6) (⟨x⟩ : FVec) tau Fx with
+  | .error .noConvergence => pure "err-NoConvergence"
+  | .error .assertion => pure "err-AssertionError"
+  | .ok o =>
+    pure s!"ok {showFV o.xnew} | {showOptFV o.xest} | {showOptFV o.Fxnew} | {o.fcalls}"
+
+def doRosF : P String := do
+  let s ← nat
+  let Al ← pFList; let Gl ← pFList; let b ← pFList
+  let hb ← bool
+  let bhat ← if hb then (do let v ← pFList; pure (some v)) else pure none
+  let n ← nat
+  let Ml ← pFList; let Kl ← pFList; let d ← pFList; let g ← pFList; let x ← pFList; let tau ← fbits
+  if s = 0 then failure
+  let A := toFMat s Al; let G := toFMat s Gl
+  let Mm := toFMat n Ml; let K := toFMat n Kl
+  let xv : FVec := ⟨x⟩
+  let Jx := nlJ K d xv
+  let o := rosStep s (ffn2 A) (ffn2 G) (ffn1 b) (bhat.map ffn1) (nlF K d g) (matVec Jx)
+    (fun c r => solveV (matSub Mm (matScale c Jx)) r) xv tau
+  pure s!"ok {showFV o.xnew} | {showOptFV o.xest}"
+
+end floatops
+
 def showGroups (g : List (List Rat)) : String := " | ".intercalate (g.map showRats)
 
 def request : P String := do
@@ -205,6 +286,8 @@ def request : P String := do
   | "newton" => doNewton
   | "const" => doConst
   | "adapt" => doAdapt
+  | "dirkf" => doDirkF
+  | "rosf" => doRosF
   | "rkres" => do let s ← nat; let A ← pMat s; let w ← list rat; pure (showGroups (rkResiduals A w))
   | "rosres" => do
       let s ← nat; let A ← pMat s; let G ← pMat s; let w ← list rat
